@@ -32,6 +32,8 @@ ASSUME_RANGE = {
     ("phpy_set_index_permutation_symmetry_compact_fc", "p2s"): ("n_satom", "primitive->supercell atom indices"),
     ("phpy_set_index_permutation_symmetry_compact_fc", "s2pp"): ("n_patom", "supercell->primitive-index map"),
     ("phpy_set_index_permutation_symmetry_compact_fc", "perms"): ("n_satom", "atom permutations: values are supercell atom indices"),
+    ("distribute_fc2", "map_atoms"): ("num_pos", "map_atoms sends every supercell atom to a supercell atom (shape [n_pos])"),
+    ("distribute_fc2", "atom_list"): ("num_pos", "atom_list holds supercell atom indices"),
 }
 
 
@@ -159,6 +161,17 @@ def run(rep: core.Report, an, tus):
                     if w.base != nm:
                         continue
                     hi = _bound(w.index, w.vars)
+                    # a slot addressed by a loaded value: bounded by the value range of that index map (assumption table)
+                    ix = sp.sympify(w.index)
+                    if isinstance(ix, sp.core.function.AppliedUndef) and ix.func.__name__.startswith("load:") and (fname, ix.func.__name__[5:]) in ASSUME_RANGE:
+                        ub_txt, why = ASSUME_RANGE[(fname, ix.func.__name__[5:])]
+                        ub = sp.Symbol(ub_txt, integer=True)
+                        cnt = count.subs({x: sp.Symbol(x.name, integer=True) for x in count.free_symbols})
+                        ok = _nonneg(sp.expand(cnt - ub))
+                        rep.assume(f"{fname}: values of {ix.func.__name__[5:]} < {ub_txt} ({why})")
+                        rep.instance("R13d.malloc", tu.rel, fname, f"write {nm}[{_clean(w.index)}] (values < {ub_txt}) within malloc of {_clean(count)} elements", ok,
+                                     f"the slot is addressed by a value of {ix.func.__name__[5:]}, which ranges up to {ub_txt} - 1, but only {_clean(count)} elements are allocated: for a shorter list the write (and the later read of the same slot) lands past the end of the heap block", line=w.line)
+                        continue
                     if hi is None or any(str(x).startswith("?") for x in hi.free_symbols) or hi.atoms(sp.Function):
                         rep.unknown(f"{tu.rel}::{fname}: write {nm}[{_clean(w.index)}]: index is data dependent (counter or loaded value), not bounded statically")
                         continue
